@@ -3,6 +3,8 @@
 (*   exp  - the P-layer results (PBase after MapToMolecule, PFinal at the end, ExclP)                    *)
 (*   got  - the projection of the I-layer state (used for the runs with the open deviations switched on) *)
 EXTENDS MC_FFMap, Json
+\* the input without the embedded force field (the catalogue is exported once as FFS)
+InpJson == [ff |-> inp.ff, n |-> inp.n, start |-> inp.start, rn |-> inp.rn, fi |-> inp.fi, edges |-> inp.edges, sel |-> inp.sel]
 SetSeq(S) == SetToSeq(S)
 MolJson(M) == [atoms |-> M.atoms, inters |-> SetSeq(M.inters), gattr |-> [i \in DOMAIN M.gattr |-> SetSeq(M.gattr[i])]]
 PairSeq(P) == SetSeq({SetToSortSeq(p, <) : p \in P})
@@ -10,12 +12,12 @@ PairSeq(P) == SetSeq({SetToSortSeq(p, <) : p \in P})
 WithinTab(E, nA) == [d \in 1..6 |-> PairSeq({p \in PairsOf(nA) : \E a \in p : \E b \in p \ {a} : Within(E, a, b, d - 1)})]
 GotJson == [atoms |-> ProjAtoms, inters |-> ProjInters, gattr |-> [i \in DOMAIN ProjGattr |-> SetSeq(ProjGattr[i])], nrexcl |-> molN]
 ExportC01 == (pc = "done") =>
-   PrintT(<<"CASE", ToJson([inp |-> inp, base |-> MolJson(PBase(inp)), exp |-> MolJson(PFinal(inp)), apps |-> PLinkApps(inp)])>>)
+   PrintT(<<"CASE", ToJson([inp |-> InpJson, base |-> MolJson(PBase(inp)), exp |-> MolJson(PFinal(inp)), apps |-> PLinkApps(inp)])>>)
 ExportAsIs == (pc = "done") =>
-   PrintT(<<"CASE", ToJson([inp |-> inp, err |-> err, fired |-> SetSeq(fired), got |-> GotJson])>>)
+   PrintT(<<"CASE", ToJson([inp |-> InpJson, err |-> err, fired |-> SetSeq(fired), got |-> GotJson])>>)
 ExportC14 == (pc = "done") =>
    LET F == PFinal(inp) IN
-   PrintT(<<"CASE", ToJson([inp |-> inp, exp |-> MolJson(F), excl |-> PairSeq(ExclP(inp)), uniform |-> Uniform(inp),
+   PrintT(<<"CASE", ToJson([inp |-> InpJson, exp |-> MolJson(F), excl |-> PairSeq(ExclP(inp)), uniform |-> Uniform(inp),
                             within |-> WithinTab(BondE(F.inters), Len(F.atoms)),
                             nrexclI |-> molN, ngenI |-> Cardinality({x \in ToSet(inters) : IsGen(x)})])>>)
 =============================================================================
